@@ -177,6 +177,42 @@ def normalize(scen):
     return scen
 
 
+def to_cli_mode(scen):
+    """The commonest way JADE is used: no submission groups in the configuration, every submitter parameter given as an option of
+    `jade submit-jobs` (-b -q -n -p -t -h ...).  One group, which JADE calls "default"."""
+    g = dict(scen["groups"][0], name="default")
+    if g["time_based"]:
+        g["batch"] = 500  # --per-node-batch-size may not be combined with --time-based-batching: JADE's default stays recorded
+    scen["groups"] = [g]
+    for j in scen["jobs"]:
+        j["group"] = "default"
+    scen["cli_params"] = True
+    if scen.get("max_nodes") == 1:
+        scen["max_nodes"] = 2  # the option only accepts values >= 2
+    return normalize(scen)
+
+
+def cli_options(scen):
+    g = scen["groups"][0]
+    o = ["-h", "hpc_config.json", "-p", str(scen["poll"]), "-R", "none", "--reports" if scen["reports"] else "--no-reports"]
+    o.append("--try-add-blocked-jobs" if g["try_add"] else "--no-try-add-blocked-jobs")
+    if g["time_based"]:
+        o.append("-t")
+    else:
+        o += ["-b", str(g["batch"])]
+    if g["procs_opt"] is not None:
+        o += ["-q", str(g["procs_opt"])]
+    if scen["max_nodes"] is not None:
+        o += ["-n", str(scen["max_nodes"])]
+    if g.get("verbose"):
+        o.append("--verbose")
+    if not g.get("dsub", True):
+        o.append("-N")
+    if scen.get("dry_run"):
+        o.append("--dry-run")
+    return o
+
+
 def write_config(scen, root, registry):
     """Write <root>/config.json for the scenario through JADE's public models."""
     os.environ["JADE_REGISTRY"] = registry
@@ -198,7 +234,7 @@ def write_config(scen, root, registry):
                 blocked_by=bl,
                 cancel_on_blocking_job_failure=j["flag"],
                 estimated_run_minutes=j["est"],
-                submission_group=j["group"],
+                **({} if scen.get("cli_params") else {"submission_group": j["group"]}),
                 append_job_name=j.get("append_job_name", False),
                 append_output_dir=j.get("append_output_dir", False),
             )
@@ -228,5 +264,9 @@ def write_config(scen, root, registry):
             distributed_submitter=g.get("dsub", True),
             dry_run=scen.get("dry_run", False),
         )
-        cfg.append_submission_group(SubmissionGroup(name=g["name"], submitter_params=sp))
+        if scen.get("cli_params"):
+            with open(os.path.join(root, "hpc_config.json"), "w") as f:
+                f.write(hpc.json())
+        else:
+            cfg.append_submission_group(SubmissionGroup(name=g["name"], submitter_params=sp))
     cfg.dump(os.path.join(root, "config.json"))
